@@ -361,3 +361,51 @@ def _post_dcb(engine, st, ctx, out):
 
 UNITS.append(Unit("RetryExecutor._delegate_callback", "retry.RetryExecutor._delegate_callback",
                   ["C05", "C01", "C02", "C03", "C06", "C12", "C18", "C20"], _setup_dcb, _post_dcb, cfg=_cfg_dcb, self_cls="RetryExecutor"))
+
+
+# ---- ExceptionRetryPolicy.__init__: the policy's parameters are exactly the keyword arguments, defaults otherwise -------------
+def _setup_policy_init(variant):
+    def setup(engine, st):
+        oid = st.alloc("ExceptionRetryPolicy")
+        st.assume(cls_of(z3.IntVal(oid)) == engine.tag("ExceptionRetryPolicy"))
+        me = Z(ref(oid), INST("ExceptionRetryPolicy"))
+        kw = {}
+        if variant != "defaults":
+            kw = {"max_attempts": sym_val(engine, st, "int", "max_attempts"), "exponent": sym_val(engine, st, "num", "exponent"),
+                  "sleep": sym_val(engine, st, "num", "sleep"), "max_sleep": sym_val(engine, st, "num", "max_sleep")}
+            if variant == "one class":
+                from pyvc.vals import Cls
+                kw["exception_base"] = Cls("RuntimeError")
+            else:
+                kw["exception_base"] = sym_val(engine, st, ("list", "any"), "classes")
+        return [me], kw, {"me": me, "sid": z3.IntVal(oid), "kw": kw, "variant": variant}
+    return setup
+
+
+def _post_policy_init(engine, st, ctx, out):
+    sid, kw = ctx["sid"], ctx["kw"]
+    cl = [("the policy constructor does not raise", "EX", not isinstance(out, Raise), ["C05"])]
+    if isinstance(out, Raise):
+        return cl
+    g = lambda f: st.get(f, sid)
+    if ctx["variant"] == "defaults":
+        eb = g("_exception_base")
+        cl.append(("defaults: 3 attempts, exponent 2.0, sleep 1.0 s, max_sleep 120 s, retry on any Exception", "PC",
+                   z3.And(g("_max_attempts") == Val.intv(z3.IntVal(3)), g("_exponent") == Val.realv(z3.RealVal(2)), g("_sleep") == Val.realv(z3.RealVal(1)),
+                          g("_max_sleep") == Val.intv(z3.IntVal(120)), st.get("$len", Val.id(eb)) == 1,
+                          z3.Select(st.get("$at", Val.id(eb)), 0) == ref(engine.cls_obj_id("Exception"))), ["C05"]))
+        return cl
+    cl.append(("the parameters are exactly the keyword arguments given", "PC",
+               z3.And([g("_" + k_) == engine.to_val(st, kw[k_]) for k_ in ("max_attempts", "exponent", "sleep", "max_sleep")]), ["C05"]))
+    eb = g("_exception_base")
+    if ctx["variant"] == "one class":
+        cl.append(("a single exception class becomes a one-element list of that class", "PC",
+                   z3.And(st.get("$len", Val.id(eb)) == 1, z3.Select(st.get("$at", Val.id(eb)), 0) == ref(engine.cls_obj_id("RuntimeError"))), ["C05"]))
+    else:
+        cl.append(("a list of exception classes is kept as given", "PC", eb == engine.to_val(st, kw["exception_base"]), ["C05"]))
+    return cl
+
+
+for v in ("defaults", "one class", "list of classes"):
+    UNITS.append(Unit("ExceptionRetryPolicy.__init__[%s]" % v, "retry.ExceptionRetryPolicy.__init__", ["C05"], _setup_policy_init(v), _post_policy_init,
+                      cfg=lambda: make_cfg(concurrent=False), self_cls="ExceptionRetryPolicy"))
